@@ -444,8 +444,13 @@ def align_variable_names_with_convention(
                     renamings[refnode].add(substitute)
             for node in parsing.iter_funcdefs(partial_tree):
                 name = node.name
-                # Don't rename magic members, don't rename if there is inheritance.
-                if partial_tree.bases or parsing.is_magic_method(node):
+                # Don't rename magic members, don't rename if there is inheritance, don't rename
+                # what is to be preserved (methods are preserved as "Class.method").
+                if (
+                    partial_tree.bases
+                    or parsing.is_magic_method(node)
+                    or f"{partial_tree.name}.{name}" in preserve
+                ):
                     renamings[node] = {name}
                 funcdefs.append(node)
                 substitute = style.rename_variable(
